@@ -10,6 +10,7 @@ geometries and inputs, in release and debug profiles, each call under catch_unwi
 -/
 import MinizProof.Gen.All
 import MinizProof.Lemmas.GenArith
+import MinizProof.Lemmas.CoreCall
 namespace C05
 open Gen.InflCore
 
@@ -68,6 +69,90 @@ theorem window_within_slice (len pos budget : Nat) (hl : len < 2 ^ 64) (hp : pos
   simp only [this, decide_eq_true_eq]
   repeat' split
   all_goals omega
+
+/-! ### The decoder model (`Model.Core.decompress`, tied to the code by the ICALL correspondence) -/
+open Model.Core
+
+/-- The model's flag test is the source's `flags & FLAG != 0` for every 32-bit flags word. -/
+theorem model_flag_test_is_source (flags : Nat) (hf : flags < 2 ^ 32) :
+    (G.band (.u 32) (flags : Int) TINFL_FLAG_USING_NON_WRAPPING_OUTPUT_BUF != 0) = hasFlag flags fNonWrapping := by
+  have h := G.band_u32_nat flags 4 hf (by decide)
+  have h4 : TINFL_FLAG_USING_NON_WRAPPING_OUTPUT_BUF = ((4 : Nat) : Int) := rfl
+  rw [h4, h]
+  have := G.and_two_pow_ne_zero flags 2
+  unfold hasFlag fNonWrapping
+  rw [Bool.eq_iff_iff]
+  simp only [bne_iff_ne, ne_eq, beq_iff_eq]
+  constructor
+  · intro hne; exact this.mp (by intro hz; apply hne; exact_mod_cast hz)
+  · intro hb hz; exact (this.mpr hb) (by exact_mod_cast hz)
+
+/-- TIE between the hand model and the regenerated source: the geometry the model refuses is
+    exactly what the parameter check at the top of `decompress_with_limit` refuses, for every
+    32-bit flags word, every buffer length below 2^64 and every position. -/
+theorem model_geometry_is_source (flags len pos : Nat) (hf : flags < 2 ^ 32) (hl : len < 2 ^ 64) :
+    badGeometry flags len pos = geometry_rejects flags len pos := by
+  have hflag := model_flag_test_is_source flags hf
+  unfold badGeometry
+  cases hb : hasFlag flags fNonWrapping with
+  | true =>
+    rw [geometry_flat flags len pos (by rw [hflag, hb])]
+    simp
+  | false =>
+    rw [Bool.eq_iff_iff, geometry_ring flags len pos hl (by rw [hflag, hb])]
+    simp only [Bool.not_false, Bool.true_and, Bool.or_eq_true, Bool.not_eq_true', decide_eq_true_eq]
+    unfold isPow2OrZero
+    by_cases h0 : len = 0
+    · subst h0; simp
+    · have hiff := @Nat.and_sub_one_eq_zero_iff_isPowerOfTwo len h0
+      simp only [Bool.or_eq_false_iff, beq_eq_false_iff_ne, ne_eq, h0, not_false_eq_true, true_and]
+      rw [hiff]
+
+/-- Unusable geometry: parameter error, nothing consumed or written, decoder state and output
+    buffer returned untouched. -/
+theorem bad_geometry_is_param_error (r : Regs) (inp out : Array UInt8) (outPos budget flags : Nat)
+    (h : badGeometry flags out.size outPos = true) :
+    decompress r inp out outPos budget flags =
+      { status := stBadParam, consumed := 0, written := 0, r := r, out := out } := by
+  unfold decompress; rw [if_pos h]
+
+/-- Counters are within bounds on EVERY call, from every register state (reachable or not):
+    at most the offered input is reported consumed, at most the granted budget and at most the
+    space behind `outPos` is reported written, and the buffer keeps its size. -/
+theorem counters_within_bounds (r : Regs) (inp out : Array UInt8) (outPos budget flags : Nat) :
+    let res := decompress r inp out outPos budget flags
+    res.consumed ≤ inp.size ∧ res.written ≤ budget ∧ res.written ≤ out.size - outPos ∧
+    res.out.size = out.size := by
+  have h := decompress_facts r inp out outPos budget flags
+  exact ⟨h.consumed, h.wBudget, h.room, h.size⟩
+
+/-- Once a stream has failed it keeps failing: from any failure state a call with usable geometry
+    returns `Failed` with nothing consumed or written, and stays in the same failure state. -/
+theorem failed_is_sticky (r : Regs) (inp out : Array UInt8) (outPos budget flags : Nat)
+    (hs : sDoneForever < r.state) (hg : badGeometry flags out.size outPos = false) :
+    let res := decompress r inp out outPos budget flags
+    res.status = stFailed ∧ res.consumed = 0 ∧ res.written = 0 ∧ res.r.state = r.state ∧ res.out = out := by
+  have hstep : ∀ e c o, c.r = r → step e c o = .fin stFailed c o := by
+    intro e c o hc
+    unfold step
+    rw [hc]
+    exact stepAt_failed _ hs e c o
+  unfold decompress
+  rw [hg]
+  simp only [Bool.false_eq_true, ↓reduceIte, callFuel]
+  unfold run
+  rw [hstep _ _ _ rfl]
+  simp only [epilogue_consumed, epilogue_written, epilogue_out]
+  have hx : exitStatus stFailed { r := r, inPos := 0, outPos := outPos } (min (outPos + budget) out.size) = stFailed :=
+    exitStatus_of_ne _ _ _ (by decide)
+  refine ⟨?_, by simp [exitUndo], by simp, ?_, ?_⟩
+  · rw [epilogue_status_neg _ _ _ _ _ _ (by rw [hx]; decide), hx]
+  · simp [exitState, stFailed, stBlockBoundary]
+  · simp
+
+example : badGeometry 0 3 0 = true := by decide
+example : badGeometry 4 3 4 = true := by decide
+example : badGeometry 0 32768 32768 = false := by decide +kernel
 
 example : geometry_rejects 0 3 0 = true := by decide +kernel
 example : geometry_rejects 0 32768 32768 = false := by decide +kernel
